@@ -118,6 +118,8 @@ def to_term(x):
         return z3.StringVal(x)
     if z3.is_expr(x):
         return x
+    if isinstance(getattr(x, "v", None), V):  # theory_np.SeqLen
+        return x.v.t
     raise Undecided(f"cannot convert {type(x).__name__} to a term")
 
 
@@ -139,9 +141,9 @@ def same_axis(a, b):
     if a is b:
         return True
     if hasattr(a, "doms") and hasattr(b, "doms"):
-        from .frames import same_rows
+        from .frames import same_rows, provably_same_rows
 
-        return same_rows(a, b)
+        return same_rows(a, b) or provably_same_rows(a, b)
     if isinstance(a, SubSpace) and isinstance(b, SubSpace):
         return same_axis(a.parent, b.parent) and z3.eq(z3.simplify(a.mask), z3.simplify(b.mask))
     return False
